@@ -380,6 +380,12 @@ func genW3(r *simrt.Rng, prop string, tier string) (*w3Ops, []*model.Desc) {
 				} else {
 					c = 0xff
 				}
+				if r.Chance(0.12) {
+					// not a note: controllers, pitch bend, programme change, clock - nothing to show, nothing to break
+					other := [][]byte{{0xB0, byte(r.Range(0, 127)), byte(r.Range(0, 127))}, {0xE0, 0, 64}, {0xC0, 5}, {0xF8}, {0xB0, 123, 0}}
+					g.out = append(g.out, model.Event{Kind: "midiin", Bytes: other[r.Intn(len(other))], Value: int32(c)})
+					continue
+				}
 				g.out = append(g.out, model.Event{Kind: "midiin", Bytes: []byte{st, byte(note), vel}, Value: int32(c)})
 			case 2:
 				g.out = append(g.out, model.Event{Kind: "wait", Ms: r.Range(1, 60)})
@@ -740,7 +746,9 @@ func w3Drive(st *w3DevState, dv w3Dev, ops *w3Ops, srv *orgbServer, mu *sync.Mut
 			if ch == 0xff {
 				ch = st.m.Ch - 1
 			}
-			b[0] = b[0]&0xf0 | byte(ch&0x0f)
+			if b[0] < 0xf0 {
+				b[0] = b[0]&0xf0 | byte(ch&0x0f)
+			}
 			simrt.Send(st.midiIn, midi.Event(b))
 			st.ext.Apply(b)
 		case "wait":
